@@ -8,6 +8,7 @@ import FM.Model.Quotes
 import FM.Model.Ellipses
 import FM.Model.Render
 import FM.Base.Sexp
+import FM.Base.ResolveCodec
 import FM.Model.BlockStart
 import FM.Model.TagSeg
 import FM.Model.Scan
@@ -141,6 +142,10 @@ def step (line : String) : String :=
           encStr (renderDoc { wrap := wrap, spacing := spacing, defs := ds } bs)
         | _, _ => bad
       | _, _, _ => bad
+  | ["resolve", force, maxSize, incl, excl, args] =>
+      match resolveOp force maxSize incl excl args with
+      | some r => r
+      | none => bad
   | ["interrupts", ws] => match decList ws with
       | some ws => encBool (interruptsPara ws)
       | none => bad
